@@ -25,7 +25,7 @@ func init() { register("C04", runC04) }
 // ---- skeleton syntax ------------------------------------------------------------------
 
 type c04Stmt struct {
-	K    string      `json:"k"`              // mark raise rterr return break continue if cond range list map try call
+	K    string      `json:"k"`              // mark raise rterr return break continue if cond srcerr range list map try call
 	N    int         `json:"n,omitempty"`    // mark number / raised type / returned value / condition count
 	A    []int64     `json:"a,omitempty"`    // range: from, to, step; list: elements
 	Keys []string    `json:"keys,omitempty"` // map keys
@@ -35,11 +35,22 @@ type c04Stmt struct {
 	Cl   []c04Clause `json:"cl,omitempty"`
 	Oth  *[]c04Stmt  `json:"oth,omitempty"`
 	Fin  *[]c04Stmt  `json:"fin,omitempty"`
+	Fail *c04Guard   `json:"fail,omitempty"` // cond: the condition, evaluated once more, logs N and fails with K; srcerr: N, K
 }
 
+// a guard: the literal G, or (E != nil) a call of a prelude function that logs mark(E.N) and then
+// returns true (O=1) / false (O=0) / fails with error kind K (O=2)
 type c04Branch struct {
 	G bool      `json:"g"`
+	E *c04Guard `json:"e,omitempty"`
 	B []c04Stmt `json:"b"`
+}
+
+// K: 0 = runtime error (call of an unknown function), t>0 = raise("T<t>", "D<t>", t)
+type c04Guard struct {
+	N int `json:"n"`
+	O int `json:"o"`
+	K int `json:"k"`
 }
 
 // T: listed types, n>0 = "T<n>", 0 = "Unknown construct"; Bind: 0 none, 1 `as e`, 2 `e`
@@ -60,8 +71,9 @@ func c04mark(n int) c04Stmt { return c04Stmt{K: "mark", N: n} }
 // ---- rendering to ECAL ----------------------------------------------------------------
 
 type c04render struct {
-	sb strings.Builder
-	id int
+	sb      strings.Builder
+	id      int
+	prelude bool
 }
 
 func c04typeName(t int) string {
@@ -100,7 +112,10 @@ func (r *c04render) stmt(s c04Stmt) {
 			if i > 0 {
 				kw = "} elif"
 			}
-			w("%s %v {\n", kw, br.G)
+			if br.E != nil {
+				r.prelude = true
+			}
+			w("%s %s {\n", kw, c04guardSrc(br))
 			r.block(br.B)
 		}
 		if s.Else != nil {
@@ -109,7 +124,17 @@ func (r *c04render) stmt(s c04Stmt) {
 		}
 		w("}\n")
 	case "cond":
-		w("c%d := %d\nfor c%d > 0 {\nc%d := c%d - 1\n", id, s.N, id, id, id)
+		if s.Fail != nil {
+			r.prelude = true
+			w("c%d := %d\nfor cr%d(c%d, %d) {\nc%d := c%d - 1\n", id, s.N, s.Fail.K, id, s.Fail.N, id, id)
+		} else {
+			w("c%d := %d\nfor c%d > 0 {\nc%d := c%d - 1\n", id, s.N, id, id, id)
+		}
+		r.block(s.Body)
+		w("}\n")
+	case "srcerr":
+		r.prelude = true
+		w("for x%d in gr%d(%d) {\niter(x%d)\n", id, s.Fail.K, s.Fail.N, id)
 		r.block(s.Body)
 		w("}\n")
 	case "range":
@@ -174,10 +199,44 @@ func (r *c04render) stmt(s c04Stmt) {
 	}
 }
 
+// the prelude declares the functions guards, failing conditions and failing iterated
+// expressions call: gt/gf log and answer, gr<k> logs and fails, cr<k>(c, m) is true while c > 0
+// and then logs m and fails
+func c04prelude() string {
+	var sb strings.Builder
+	sb.WriteString("func gt(n) {\nmark(n)\nreturn true\n}\nfunc gf(n) {\nmark(n)\nreturn false\n}\n")
+	for k := 0; k <= 3; k++ {
+		fail := "return nofunc()"
+		if k > 0 {
+			fail = fmt.Sprintf("raise(\"T%d\", \"D%d\", %d)", k, k, k)
+		}
+		fmt.Fprintf(&sb, "func gr%d(n) {\nmark(n)\n%s\n}\n", k, fail)
+		fmt.Fprintf(&sb, "func cr%d(c, m) {\nif c > 0 {\nreturn true\n}\nmark(m)\n%s\n}\n", k, fail)
+	}
+	return sb.String()
+}
+
+func c04guardSrc(br c04Branch) string {
+	if br.E == nil {
+		return fmt.Sprint(br.G)
+	}
+	switch br.E.O {
+	case 1:
+		return fmt.Sprintf("gt(%d)", br.E.N)
+	case 0:
+		return fmt.Sprintf("gf(%d)", br.E.N)
+	}
+	return fmt.Sprintf("gr%d(%d)", br.E.K, br.E.N)
+}
+
 func c04source(p []c04Stmt) string {
 	r := &c04render{}
 	r.block(p)
-	return r.sb.String()
+	src := r.sb.String()
+	if r.prelude {
+		return c04prelude() + src
+	}
+	return src
 }
 
 // ---- rendering to Coq -----------------------------------------------------------------
@@ -204,6 +263,26 @@ func c04coqOpt(b *[]c04Stmt) string {
 	return "(Some " + c04coqBlock(*b) + ")"
 }
 
+func c04coqErrk(k int) string {
+	if k == 0 {
+		return "KRuntime"
+	}
+	return fmt.Sprintf("(KUser %d)", k)
+}
+
+func c04coqGuard(br c04Branch) string {
+	if br.E == nil {
+		return "GBool " + CoqBool(br.G)
+	}
+	switch br.E.O {
+	case 1:
+		return fmt.Sprintf("GEval %d GTrue", br.E.N)
+	case 0:
+		return fmt.Sprintf("GEval %d GFalse", br.E.N)
+	}
+	return fmt.Sprintf("GEval %d (GFail %s)", br.E.N, c04coqErrk(br.E.K))
+}
+
 func c04coqStmt(s c04Stmt) string {
 	switch s.K {
 	case "mark":
@@ -221,11 +300,17 @@ func c04coqStmt(s c04Stmt) string {
 	case "if":
 		var brs []string
 		for _, br := range s.Br {
-			brs = append(brs, "("+CoqBool(br.G)+", "+c04coqBlock(br.B)+")")
+			brs = append(brs, "("+c04coqGuard(br)+", "+c04coqBlock(br.B)+")")
 		}
 		return "If " + CoqList(brs) + " " + c04coqOpt(s.Else)
 	case "cond":
-		return fmt.Sprintf("LoopCond %d %s", s.N, c04coqBlock(s.Body))
+		fail := "None"
+		if s.Fail != nil {
+			fail = fmt.Sprintf("(Some (%d, %s))", s.Fail.N, c04coqErrk(s.Fail.K))
+		}
+		return fmt.Sprintf("LoopCond %d %s %s", s.N, fail, c04coqBlock(s.Body))
+	case "srcerr":
+		return fmt.Sprintf("LoopSrc %d %s %s", s.Fail.N, c04coqErrk(s.Fail.K), c04coqBlock(s.Body))
 	case "range":
 		return fmt.Sprintf("LoopRange %s %s %s %s", CoqZ(s.A[0]), CoqZ(s.A[1]), CoqZ(s.A[2]), c04coqBlock(s.Body))
 	case "list":
@@ -411,6 +496,12 @@ func c04exits(b []c04Stmt, seen map[string]bool) {
 		seen[s.K] = true
 		for _, br := range s.Br {
 			c04exits(br.B, seen)
+			if br.E != nil && br.E.O == 2 {
+				seen["failing-guard"] = true
+			}
+		}
+		if s.K == "cond" && s.Fail != nil {
+			seen["failing-condition"] = true
 		}
 		if s.Else != nil {
 			c04exits(*s.Else, seen)
@@ -475,7 +566,8 @@ func c04one(c *Ctx, d c04case) {
 	}
 	c.Dist["ended_"+strings.Fields(strings.Trim(obs.compl, "()"))[0]]++
 	id := c.NewID()
-	nontrivial := seen["raise"] || seen["rterr"] || seen["return"] || seen["break"] || seen["continue"]
+	nontrivial := seen["raise"] || seen["rterr"] || seen["return"] || seen["break"] || seen["continue"] ||
+		seen["failing-guard"] || seen["failing-condition"] || seen["srcerr"]
 	c.AddCase(id, fmt.Sprintf("mkCase %d %s %s %s", id, term, CoqList(obs.events), obs.compl), d, term, nontrivial)
 }
 
@@ -591,6 +683,68 @@ func c04exhaustive(c *Ctx, emit func(c04case)) int {
 	return n
 }
 
+// c04guardFamily: guard outcome x position (first / middle clause) x what follows (nothing, elif
+// true, elif false, else, elif false + else) x enclosure (none, try with a binding bare clause,
+// try with a typed clause, function{loop}); plus failing loop conditions and failing iterated
+// expressions with every kind of body exit, enclosed in a try or not.
+func c04guardFamily(emit func(c04case)) int {
+	n := 0
+	enclose := func(inner []c04Stmt, enc int) []c04Stmt {
+		switch enc {
+		case 1:
+			return c04blk(c04Stmt{K: "try", Body: append(inner, c04mark(60)), Cl: []c04Clause{{T: []int{}, Bind: 1, H: c04blk(c04mark(61))}}, Fin: c04opt(c04mark(62))}, c04mark(63))
+		case 2:
+			return c04blk(c04Stmt{K: "try", Body: append(inner, c04mark(60)), Cl: []c04Clause{{T: []int{1}, Bind: 0, H: c04blk(c04mark(61))}}, Oth: c04opt(c04mark(64))}, c04mark(63))
+		case 3:
+			return c04wrap(n%4, inner)
+		}
+		return append(inner, c04mark(63))
+	}
+	outcomes := []c04Guard{{O: 1}, {O: 0}, {O: 2, K: 1}, {O: 2, K: 0}, {O: 2, K: 2}}
+	for _, o := range outcomes {
+		for pos := 0; pos < 2; pos++ {
+			for follow := 0; follow < 5; follow++ {
+				for enc := 0; enc < 4; enc++ {
+					s := c04Stmt{K: "if"}
+					if pos == 1 {
+						s.Br = append(s.Br, c04Branch{E: &c04Guard{N: 50, O: 0}, B: c04blk(c04mark(40))})
+					}
+					g := o
+					g.N = 51
+					s.Br = append(s.Br, c04Branch{E: &g, B: c04blk(c04mark(41))})
+					switch follow {
+					case 1:
+						s.Br = append(s.Br, c04Branch{E: &c04Guard{N: 52, O: 1}, B: c04blk(c04mark(42))})
+					case 2:
+						s.Br = append(s.Br, c04Branch{E: &c04Guard{N: 52, O: 0}, B: c04blk(c04mark(42))})
+					case 3:
+						s.Else = c04opt(c04mark(43))
+					case 4:
+						s.Br = append(s.Br, c04Branch{E: &c04Guard{N: 52, O: 0}, B: c04blk(c04mark(42))})
+						s.Else = c04opt(c04mark(43))
+					}
+					emit(c04case{Prog: enclose(c04blk(s), enc), Origin: "guards"})
+					n++
+				}
+			}
+		}
+	}
+	bodies := [][]c04Stmt{c04blk(c04mark(44)), c04blk(c04mark(44), c04Stmt{K: "continue"}, c04mark(45)), c04blk(c04mark(44), c04Stmt{K: "break"})}
+	for _, k := range []int{1, 0} {
+		for enc := 0; enc < 3; enc++ {
+			for _, cnt := range []int{0, 2} {
+				for _, b := range bodies {
+					emit(c04case{Prog: enclose(c04blk(c04Stmt{K: "cond", N: cnt, Fail: &c04Guard{N: 53, K: k}, Body: b}), enc), Origin: "guards"})
+					n++
+				}
+			}
+			emit(c04case{Prog: enclose(c04blk(c04Stmt{K: "srcerr", Fail: &c04Guard{N: 54, K: k}, Body: c04blk(c04mark(46))}), enc), Origin: "guards"})
+			n++
+		}
+	}
+	return n
+}
+
 type c04gen struct {
 	c    *Ctx
 	mark int
@@ -633,7 +787,15 @@ func (g *c04gen) stmt(depth int, inLoop, inFunc bool) c04Stmt {
 	case k < 2:
 		s := c04Stmt{K: "if"}
 		for i := 0; i < 1+r.Intn(3); i++ {
-			s.Br = append(s.Br, c04Branch{G: r.Intn(2) == 0, B: g.block(depth-1, inLoop, inFunc)})
+			br := c04Branch{G: r.Intn(2) == 0, B: g.block(depth-1, inLoop, inFunc)}
+			if r.Intn(2) == 0 {
+				g.mark++
+				br.E = &c04Guard{N: 200 + g.mark, O: r.Intn(2)}
+				if r.Intn(4) == 0 {
+					br.E.O, br.E.K = 2, r.Intn(4)
+				}
+			}
+			s.Br = append(s.Br, br)
 		}
 		if r.Intn(2) == 0 {
 			e := g.block(depth-1, inLoop, inFunc)
@@ -643,7 +805,12 @@ func (g *c04gen) stmt(depth int, inLoop, inFunc bool) c04Stmt {
 	case k < 5:
 		switch r.Intn(4) {
 		case 0:
-			return c04Stmt{K: "cond", N: r.Intn(4), Body: g.block(depth-1, true, inFunc)}
+			s := c04Stmt{K: "cond", N: r.Intn(4), Body: g.block(depth-1, true, inFunc)}
+			if r.Intn(4) == 0 {
+				g.mark++
+				s.Fail = &c04Guard{N: 200 + g.mark, K: r.Intn(4)}
+			}
+			return s
 		case 1:
 			from := int64(r.Intn(7) - 3)
 			step := int64(1 + r.Intn(3))
@@ -664,6 +831,10 @@ func (g *c04gen) stmt(depth int, inLoop, inFunc bool) c04Stmt {
 			}
 			if xs == nil {
 				xs = []int64{}
+			}
+			if r.Intn(8) == 0 {
+				g.mark++
+				return c04Stmt{K: "srcerr", Fail: &c04Guard{N: 200 + g.mark, K: r.Intn(4)}, Body: g.block(depth-1, true, inFunc)}
 			}
 			return c04Stmt{K: "list", A: xs, Body: g.block(depth-1, true, inFunc)}
 		default:
@@ -700,7 +871,9 @@ func (g *c04gen) stmt(depth int, inLoop, inFunc bool) c04Stmt {
 // c04corpus: the witnesses of the repaired defects (Props/C04.v ..._refuted) and the tricky
 // shapes named in the design, replayed first on every run.
 func c04corpus() [][]c04Stmt {
-	bare := func(h ...c04Stmt) []c04Clause { return []c04Clause{{T: []int{}, Bind: 0, H: append([]c04Stmt{}, h...)}} }
+	bare := func(h ...c04Stmt) []c04Clause {
+		return []c04Clause{{T: []int{}, Bind: 0, H: append([]c04Stmt{}, h...)}}
+	}
 	try := func(body []c04Stmt, cl []c04Clause, oth, fin *[]c04Stmt) c04Stmt {
 		if cl == nil {
 			cl = []c04Clause{}
@@ -757,6 +930,12 @@ func c04corpus() [][]c04Stmt {
 		{call(call(ret(1)), c04mark(2), ret(3)), c04mark(4)},
 		// map keys in string order
 		{{K: "map", Keys: []string{"b", "a", "B", "a0", "10", "9"}, Body: c04blk()}},
+		// a guard that raises: no later guard, no branch, no else; catchable
+		{{K: "if", Br: []c04Branch{{E: &c04Guard{N: 1, O: 2, K: 1}, B: c04blk(c04mark(2))}}, Else: c04opt(c04mark(3))}},
+		{try(c04blk(c04Stmt{K: "if", Br: []c04Branch{{E: &c04Guard{N: 1, O: 0}, B: c04blk(c04mark(2))}, {E: &c04Guard{N: 3, O: 2, K: 0}, B: c04blk(c04mark(4))}, {E: &c04Guard{N: 5, O: 1}, B: c04blk(c04mark(6))}}}),
+			[]c04Clause{{T: []int{0}, Bind: 1, H: c04blk(c04mark(7))}}, nil, nil), c04mark(8)},
+		{{K: "cond", N: 1, Fail: &c04Guard{N: 2, K: 2}, Body: c04blk(c04mark(1))}, c04mark(3)},
+		{{K: "srcerr", Fail: &c04Guard{N: 1, K: 1}, Body: c04blk(c04mark(2))}, c04mark(3)},
 		// if / elif / else: the first true guard only
 		{{K: "if", Br: []c04Branch{{G: false, B: c04blk(c04mark(1))}, {G: true, B: c04blk(c04mark(2))}, {G: true, B: c04blk(c04mark(3))}}, Else: c04opt(c04mark(4))}},
 		{{K: "if", Br: []c04Branch{{G: false, B: c04blk(c04mark(1))}}, Else: c04opt(c04mark(4))}, {K: "if", Br: []c04Branch{{G: false, B: c04blk(c04mark(5))}}}},
@@ -764,7 +943,7 @@ func c04corpus() [][]c04Stmt {
 }
 
 func runC04(c *Ctx) error {
-	c.Rule = "control skeleton programs (mark / raise T1..T3 / runtime error / return / break / continue / if-elif-else with constant guards / condition, range, list and map loops / try with 0..3 except clauses of every shape, otherwise, finally / function call), rendered to ECAL and run by the interpreter: (1) fixed corpus of defect witnesses and tricky shapes, (2) exhaustive: function{loop{try}} with each of 7 exit kinds at each of 4 positions (try block, handler, otherwise, finally) x 16 except-clause shapes x otherwise present/absent x finally present/absent (x 4 loop kinds in the thorough tier, rotating in the quick tier), (3) seeded random nestings up to depth 4 of if/loop/try/function with break/continue only inside a loop of the same function and return only inside a function, ranges terminating; non-trivial = contains an abrupt exit; distinct by skeleton"
+	c.Rule = "control skeleton programs (mark / raise T1..T3 / runtime error / return / break / continue / if-elif-else whose guards are literals or logged calls that answer true / false, raise T1..T3 or fail with a runtime error / condition loops (optionally with a condition that finally raises), range, list and map loops, loops over an expression that raises / try with 0..3 except clauses of every shape, otherwise, finally / function call), rendered to ECAL and run by the interpreter: (1) fixed corpus of defect witnesses and tricky shapes, (2a) guards: 5 guard outcomes x first/middle clause x 5 continuations (nothing, elif true, elif false, else, elif false + else) x 4 enclosures, failing loop conditions and failing iterated expressions x body exits x enclosures, (2b) exhaustive: function{loop{try}} with each of 7 exit kinds at each of 4 positions (try block, handler, otherwise, finally) x 16 except-clause shapes x otherwise present/absent x finally present/absent (x 4 loop kinds in the thorough tier, rotating in the quick tier), (3) seeded random nestings up to depth 4 of if/loop/try/function with break/continue only inside a loop of the same function and return only inside a function, ranges terminating; non-trivial = contains an abrupt exit; distinct by skeleton"
 	c.BeginCases("From Ecal Require Import Model.ControlSyntax Model.Control Spec.ControlSpec Run.RunC04.\nOpen Scope nat_scope.", "case", 250)
 
 	if c.Replay != "" {
@@ -790,6 +969,7 @@ func runC04(c *Ctx) error {
 		emit(c04case{Prog: p, Origin: "corpus"})
 	}
 	c.Extra["corpus_programs"] = len(c04corpus())
+	c.Extra["guard_family_programs"] = c04guardFamily(emit)
 	c.Extra["exhaustive_programs"] = c04exhaustive(c, emit)
 	g := &c04gen{c: c}
 	nrand := c.Pick(400, 12000)
